@@ -202,6 +202,15 @@ def run(ctx: Ctx):
     _typed_sequence(ctx, model, base)
     from .common_codec import as_bytes_encodes_current
     as_bytes_encodes_current(ctx, "C02-R11")
+    from . import c04 as _c04
+    ctx.include(_c04.run, {"C04-R2"}, "C02-R13",
+                "the member list of a Grouped AVP is published once it is complete (a search on "
+                "another thread never sees a partly decoded group)", floor=1,
+                constructs=lambda c: c.startswith("AvpGrouped.value"))
+    from .common_codec import no_shared_default_objects
+    no_shared_default_objects(ctx, "C02-R12", [f_ for f_ in model.all_funcs() if ".message" in f_.module.name
+                                               and ".commands." not in f_.module.name],
+                              "the message package")
 
 
 def _typed_sequence(ctx: Ctx, model, base):
